@@ -25,7 +25,11 @@ use serde_json::{Value, json};
 
 use crate::{Certs, SMALL_WINDOW, Tp, connect_pair, fill, matches, with_watchdog};
 
-pub const WATCHDOG: Duration = Duration::from_secs(60);
+/// The watchdog is longer than the idle timeout: a peer whose CONNECTION_CLOSE never arrives
+/// (quinn-proto does not send it while the closing side is congestion-blocked with unsent data)
+/// learns of the close by its idle timer, which is the protocol's answer, not a hang.
+pub const IDLE_SECS: u64 = 30;
+pub const WATCHDOG: Duration = Duration::from_secs(75);
 /// after two programs hung for the full watchdog the verdict is established: be less patient
 const SHORT_WATCHDOG: Duration = Duration::from_secs(8);
 static FULL_HANGS: std::sync::atomic::AtomicUsize = std::sync::atomic::AtomicUsize::new(0);
@@ -325,6 +329,20 @@ struct Shared {
     blocked_dgrams: Cell<u64>,
     dgrams_got: Cell<u64>,
     specs: Vec<StreamSpec>,
+    /// what every unfinished task is currently waiting in (for the description of a hang)
+    pending: RefCell<Option<Rc<RefCell<BTreeMap<String, &'static str>>>>>,
+}
+
+impl Shared {
+    fn at(&self, task: String, what: &'static str) {
+        if let Some(p) = self.pending.borrow().as_ref() {
+            if what == "done" {
+                p.borrow_mut().remove(&task);
+            } else {
+                p.borrow_mut().insert(task, what);
+            }
+        }
+    }
 }
 
 async fn write_all(sh: &Shared, s: u32, send: &mut SendStream, data: Vec<u8>, flag: &Cell<bool>) -> Result<(), String> {
@@ -377,6 +395,8 @@ async fn read_to_end(sh: &Shared, s: u32, recv: &mut RecvStream, pace: &str) -> 
 async fn writer(sh: Rc<Shared>, conn: Connection, s: u32) {
     let spec = sh.specs[s as usize - 1].clone();
     let flag = &sh.wflag[s as usize - 1];
+    let me = format!("writer{s}");
+    sh.at(me.clone(), "open_wait");
     let pend = Cell::new(false);
     let opened = if spec.bi {
         note_pending(&pend, &pend, &sh.blocked_opens, conn.open_bi_wait()).await.map(|(a, b)| (a, Some(b)))
@@ -388,9 +408,11 @@ async fn writer(sh: Rc<Shared>, conn: Connection, s: u32) {
         Err(e) => {
             flag.set(true);
             sh.ctx.err(s, "open", &e.to_string(), false);
+            sh.at(me, "done");
             return;
         }
     };
+    sh.at(me.clone(), "write");
     sh.ids.borrow_mut().insert((spec.bi as u8, send.id().index()), s);
     sh.ctx.opened(s);
     let reader_may_stop = spec.pace == "stop";
@@ -419,16 +441,19 @@ async fn writer(sh: Rc<Shared>, conn: Connection, s: u32) {
     flag.set(true);
     if !failed && spec.end != "reset" {
         // completes when the peer has acknowledged everything (or stopped the stream)
+        sh.at(me.clone(), "stopped");
         if let Err(e) = send.stopped().await {
             sh.ctx.err(s, "stopped", &e.to_string(), false);
         }
     }
     if let Some(mut recv) = recv {
         // the reply direction: the server answers with a short message once it is done reading
+        sh.at(me.clone(), "read reply");
         if let Err(e) = read_to_end(&sh, s + ECHO, &mut recv, "eager").await {
             sh.ctx.err(s + ECHO, "read", &e, reader_may_stop || spec.end == "reset");
         }
     }
+    sh.at(me, "done");
 }
 
 async fn reader(sh: Rc<Shared>, send: Option<SendStream>, mut recv: RecvStream, bi: bool) {
@@ -438,6 +463,8 @@ async fn reader(sh: Rc<Shared>, send: Option<SendStream>, mut recv: RecvStream, 
         return;
     };
     let spec = sh.specs[s as usize - 1].clone();
+    let me = format!("reader{s}");
+    sh.at(me.clone(), "read");
     if spec.pace == "slow" {
         // a slow reader: starts only when the writer is blocked on the window or has written everything
         let flag = &sh.wflag[s as usize - 1];
@@ -468,14 +495,18 @@ async fn reader(sh: Rc<Shared>, send: Option<SendStream>, mut recv: RecvStream, 
                 Ok(()) => sh.ctx.finished(s + ECHO, false),
                 Err(e) => sh.ctx.err(s + ECHO, "finish", &e.to_string(), false),
             }
+            sh.at(me.clone(), "stopped (reply)");
             let _ = send.stopped().await;
         }
     }
+    sh.at(me, "done");
 }
 
 async fn acceptor(sh: Rc<Shared>, conn: Connection, bi: bool, count: usize) {
     let mut handles = vec![];
+    let me = format!("acceptor-{}", if bi { "bi" } else { "uni" });
     for _ in 0..count {
+        sh.at(me.clone(), "accept");
         let r = if bi {
             conn.accept_bi().await.map(|(s, r)| (Some(s), r))
         } else {
@@ -489,6 +520,7 @@ async fn acceptor(sh: Rc<Shared>, conn: Connection, bi: bool, count: usize) {
             }
         }
     }
+    sh.at(me, "done");
     for h in handles {
         let _ = h.await;
     }
@@ -502,7 +534,7 @@ struct Env {
 
 impl Env {
     async fn new(certs: Certs) -> Result<Self, String> {
-        let tp = Tp { stream_window: None, conn_window: None, max_uni: 4, max_bi: 4, dgram_send_buf: None };
+        let tp = Tp { stream_window: None, conn_window: None, max_uni: 4, max_bi: 4, dgram_send_buf: None, idle_secs: IDLE_SECS };
         let server = Endpoint::server("127.0.0.1:0", certs.server(tp.build()))
             .await
             .map_err(|e| format!("bind server: {e}"))?;
@@ -556,6 +588,7 @@ async fn run_program(env: &mut Option<Env>, prog: &Value, rep: &mut Report, trac
         max_uni: maxs,
         max_bi: maxs,
         dgram_send_buf: None,
+        idle_secs: IDLE_SECS,
     };
     let ctp = Tp { dgram_send_buf: Some(DGRAM_SEND_BUF), ..tp };
     let (c, s) = with_watchdog(WATCHDOG, connect_pair(&e.client, &e.server, e.certs.client(ctp.build()), e.certs.server(tp.build())))
@@ -602,9 +635,12 @@ async fn run_program(env: &mut Option<Env>, prog: &Value, rep: &mut Report, trac
         blocked_dgrams: Cell::new(0),
         dgrams_got: Cell::new(0),
         specs: specs.clone(),
+        pending: RefCell::new(None),
     });
 
     let mut handles = vec![];
+    let pending: Rc<RefCell<BTreeMap<String, &'static str>>> = Rc::new(RefCell::new(BTreeMap::new()));
+    sh.pending.replace(Some(pending.clone()));
     let n_bi = specs.iter().filter(|s| s.bi).count();
     let n_uni = specs.len() - n_bi;
     if n_uni > 0 {
@@ -705,7 +741,14 @@ async fn run_program(env: &mut Option<Env>, prog: &Value, rep: &mut Report, trac
         let mut l = ctx.0.borrow_mut();
         if !finished {
             let open: Vec<String> = l.obs.iter().map(|(s, o)| format!("s{s}:w{}r{}f{}e{}", o.written, o.read, o.fin, o.eof)).collect();
-            l.violation("hang", format!("stream tasks did not complete within {wd:?} (closed={was_closed}): {open:?}"));
+            let waiting: Vec<String> = pending.borrow().iter().map(|(k, v)| format!("{k} in {v}")).collect();
+            let (cs, ss) = (c.stats(), s.stats());
+            let net = format!(
+                "client sent {} UDP datagrams / {} CONNECTION_CLOSE frames, close_reason {:?}; server received {} UDP datagrams / {} CONNECTION_CLOSE frames, close_reason {:?}",
+                cs.udp_tx.datagrams, cs.frame_tx.connection_close, c.close_reason().map(|e| e.to_string()),
+                ss.udp_rx.datagrams, ss.frame_rx.connection_close, s.close_reason().map(|e| e.to_string())
+            );
+            l.violation("hang", format!("stream tasks did not complete within {wd:?} (closed={was_closed}); still waiting: {waiting:?}; streams: {open:?}; {net}"));
         }
         if finished && !was_closed {
             for (i, sp) in specs.iter().enumerate() {
